@@ -355,7 +355,8 @@ func runC08(c c08Case) *Violation {
 }
 
 func TestC08(t *testing.T) {
-	Ev.Rule = "case = engine with IngestBufferSize 1-8 and MaxBufferedRows 1-2 (every batch is its own flush); optional wedge (a gate at the 1st/2nd CreateFile/Write/Close/Update that honours or ignores ctx and opens right after Stop returns or only at the end; or an abandoned unbuffered done channel); 1-3 producers issuing up to 6 batches each (blocked on the full buffer when wedged); one Stop with a 50-300 ms deadline, an already-cancelled ctx, no practical deadline, or a custom Context whose AfterFunc callbacks run 600-900 ms late. Oracle on the recorded history: IngestRows/Flush called after Stop returned => ErrEngineStopped; Stop nil => every batch accepted before it returned was already answered; Stop returns within deadline + 350 ms; after a deadline error no CreateFile starts (logical clock of the tracing wrapper) and no Update for a file created afterwards; once the gates are open every accepted batch with a buffered channel has a value. Time/ordering verdicts are confirmed by three isolated re-executions. Non-trivial: Stop returned a deadline error while >=2 batches were accepted behind a wedge; distinct by case."
+	Ev.Rule = "case = engine with IngestBufferSize 1-8 and MaxBufferedRows 1-2 (every batch is its own flush); optional wedge (a gate at the 1st/2nd CreateFile/Write/Close/Update that honours or ignores ctx and opens right after Stop returns or only at the end; or an abandoned unbuffered done channel); 1-3 producers issuing up to 6 batches each (blocked on the full buffer when wedged); one Stop with a 50-300 ms deadline, an already-cancelled ctx, no practical deadline, or a custom Context whose AfterFunc callbacks run 600-900 ms late. Oracle on the recorded history: IngestRows/Flush called after Stop returned => ErrEngineStopped; Stop nil => every batch accepted before it returned was already answered; Stop returns within deadline + 350 ms; after a deadline error no CreateFile starts (logical clock of the tracing wrapper) and no Update for a file created afterwards; once the gates are open every accepted batch with a buffered channel has a value. stoprace phase: 1-5 IngestRows/Flush callers held, through a Context whose Done() call parks, between the engine's stopped check and its enqueue; Stop is started and the callers are released before, 0-2 ms into, or after (30 ms) it; Stop nil => every accepted batch answered exactly once, every caller returns, later calls are refused. Time/ordering verdicts are confirmed by three isolated re-executions. Non-trivial: Stop returned a deadline error while >=2 batches were accepted behind a wedge; distinct by case."
 	Ev.Assumptions = []string{"a flush already inside a ctx-ignoring store call when the deadline hits may finish (documented)", "deadline allowance 350 ms; timing verdicts need 3/3 reproductions"}
 	runChecks(t, "schedules", 100, 3000, genC08(), runC08)
+	runChecks(t, "stoprace", 60, 1500, genStopRace(), runStopRace)
 }
